@@ -196,6 +196,16 @@ def _r19_2(res, P, cfgname):
         res.floor("R19.2", cfgname, n, 100, "functions with debug-only regions")
 
 
+def shared_r19_2(res, programs):
+    """R19.2 evaluated for another property: an arithmetic step moved into a debug assertion makes
+    release builds compute something else (necessary for C01 / C02 / C13 / C15 in release builds)"""
+    res.rule("R19.2", "(shared with C19) debug_assert*! expansions have no effects: no assignment to / &mut of a place that outlives the assertion")
+    for P in programs:
+        u = P.units.get("dashu_int")
+        if u is not None and u.debug_assertions and P.role == "main":
+            _r19_2(res, P, P.name)
+
+
 def _is_flag(body, l):
     return body["locals"][l]["ty"] == "bool" and not any(v["p"]["l"] == l for v in body.get("vars", []))
 
